@@ -114,8 +114,12 @@ def run(ctx):
         c = cfg_of(fi)
         r = c.reaching_defs(fi.params())
         # the path finally opened / handed to the writer: collect `file_name` after its last update
+        pathname = None
+        for c_ in ast.walk(fi.node):
+            if isinstance(c_, ast.Call) and call_name(c_) in ("open", "_atomic_write") and c_.args and isinstance(c_.args[0], ast.Name):
+                pathname = c_.args[0].id
         stmts = [st for st in fi.node.body if isinstance(st, (ast.Assign, ast.AugAssign))
-                 and any(isinstance(t, ast.Name) and t.id == "file_name" for t in stmt_targets(st))]
+                 and any(isinstance(t, ast.Name) and t.id == pathname for t in stmt_targets(st))]
         parts = []
         for st in stmts:
             parts.append(("+=" if isinstance(st, ast.AugAssign) else "=") + src(st.value))
@@ -170,14 +174,24 @@ def run(ctx):
         ctx.bad("R25.1", key, f"reader found: {bool(rdr)}, writer found: {bool(wr)}", okl)
     else:
         # reader: fname = reduce(join, [output_directory, "pickle", _file_name_by_strategy(idx)])
-        rnode = [n for n in cfg.nodes if n.kind == "stmt" and isinstance(n.ast, ast.Assign)
-                 and any(isinstance(t, ast.Name) and t.id == "fname" for t in n.ast.targets)][-1]
-        rt = _path_segments(inline_at(cfg, rd, rnode.id, rnode.ast.value))
+        # the reader's path: the name handed to ResidualSampleList.load / SampleList.load in the resume branch
+        ldname = None
+        for c_ in ast.walk(okl.node):
+            if isinstance(c_, ast.Call) and src(c_.func) in ("ResidualSampleList.load", "SampleList.load") and c_.args and isinstance(c_.args[0], ast.Name):
+                ldname = c_.args[0].id
+        rcand = [n for n in cfg.nodes if n.kind == "stmt" and isinstance(n.ast, ast.Assign)
+                 and any(isinstance(t, ast.Name) and t.id == ldname for t in n.ast.targets)]
+        if not rcand:
+            ctx.und("R25.1", key, "reader path variable not found", okl)
+            rcand = None
+        rnode = rcand[-1] if rcand else None
+        rt = _path_segments(inline_at(cfg, rd, rnode.id, rnode.ast.value)) if rnode is not None else None
         wnode = [n for k, n, c in loop_writes if k == "samples"][0]
         wt = _path_segments(inline_at(cfg, rd, wnode.id, wr[0].args[0]))
         norm_r = [s if "_file_name_by_strategy" not in s else "<strategy-name>" for s in (rt or [])]
         norm_w = [s if "_file_name_by_strategy" not in s else "<strategy-name>" for s in (wt or [])]
-        ctx.check("R25.1", key, rt is not None and norm_r == norm_w, f"reader {rt} vs writer {wt}", okl, wr[0])
+        if rnode is not None:
+            ctx.check("R25.1", key, (norm_r == norm_w) if (rt is not None and wt is not None) else None, f"reader {rt} vs writer {wt}", okl, wr[0])
         # index arguments: reader uses the marker value, writer the loop variable
         widx = [a for x in ast.walk(wr[0]) if isinstance(x, ast.Call) and call_name(x) == "_file_name_by_strategy" for a in x.args]
         ctx.check("R25.1", f"{okl.key}::sample files are named after the iteration being committed",
@@ -261,9 +275,18 @@ def run(ctx):
         base = set()
         if sel:
             base = {(src(t), pol) for t, pol in known_atoms(cfg, sel[0].id)}
-        extra = [("" if pol else "not ") + src(t) for t, pol in at
-                 if (src(t), pol) not in base and not (src(t).startswith("_MPI_master(") and pol)
-                 and not (sel and src(t) == src(sel[0].ast) and not pol)]
+        def nrm(t, pol):
+            while isinstance(t, ast.UnaryOp) and isinstance(t.op, ast.Not):
+                t, pol = t.operand, not pol
+            return src(t), pol
+        base = {nrm(ast.parse(a_, mode="eval").body, b_) for a_, b_ in base}
+        selkey = (nrm(sel[0].ast, True)[0], False) if sel else None
+        extra = []
+        for t, pol in at:
+            k = nrm(t, pol)
+            if k in base or (k[0].startswith("_MPI_master(") and k[1]) or k == selkey:
+                continue
+            extra.append(("" if k[1] else "not ") + k[0])
         if not sel:
             extra = None
         ctx.check("R25.1", key, (not extra) if extra is not None else None,
@@ -304,7 +327,7 @@ def run(ctx):
     for s_ in strategies:
         dep = _result_depends_on_index(fns, s_)
         for n, c in wr_sites:
-            key = f"{okl.key}::{short(c, 60)}::save_strategy={s_}"
+            key = f"{okl.key}::sample list saved under _file_name_by_strategy(<iteration>)::save_strategy={s_}"
             if dep is None:
                 ctx.und("R25.4", key, "could not evaluate _file_name_by_strategy", okl, c)
             elif dep:
@@ -325,8 +348,7 @@ def _delegates_or_atomic(ctx, m, mod, fi, atomic_helpers):
         cfg = cfg_of(fi)
         rd = cfg.reaching_defs(fi.params())
         # treat `file_name` local as the final path
-        prot = [ast.Name(id="file_name", ctx=ast.Load())]
-        opens = [e for e in direct if e.kind == "open_w" and e.path is not None and src(e.path) == "file_name"]
+        opens = [e for e in direct if e.kind == "open_w" and e.path is not None and isinstance(e.path, ast.Name)]
         if opens:
             ctx.bad("R25.3", key, "history pickle is opened for writing in place: a crash leaves a truncated pickle that "
                     "resume cannot load", fi, opens[0].call)
